@@ -593,8 +593,16 @@ func gSl(s SlObs) string {
 func gHObs(h HObs) string {
 	return lib.App("mk_hobs", lib.ListOf(h.Sl, gSl), lib.Bool(h.Distinct), lib.Bool(h.Unscoped), lib.Z(h.Table))
 }
+func inModel(in Input) bool {
+	for _, s := range in.Steps {
+		if s.K == "derive" && s.Op.K == "where_group" {
+			return false
+		}
+	}
+	return true
+}
 func term(in Input, o Obs) string {
-	return lib.App("mk_case", lib.ListOf(in.Steps, gStep), lib.ListOf(o.Fins, gFinObs), lib.ListOf(o.Final, gHObs))
+	return lib.App("mk_case", lib.Bool(inModel(in)), lib.ListOf(in.Steps, gStep), lib.ListOf(o.Fins, gFinObs), lib.ListOf(o.Final, gHObs))
 }
 
 // ---- abstract tracking used by the generator and by the known-finding signatures ----
@@ -772,7 +780,7 @@ func (g *gen) spare(n int) int { // capacity of a caller-made slice
 
 func (g *gen) op(stmtOf int) *Op {
 	r := g.r
-	st := g.t.ss[stmtOf]
+	_ = stmtOf
 	for {
 		switch r.Intn(26) {
 		case 0, 1, 2:
@@ -827,16 +835,12 @@ func (g *gen) op(stmtOf int) *Op {
 			}
 			return &Op{K: "model"}
 		case 22, 23:
-			// Returning: never a second append onto one shared slice value (known finding; corpus replays it)
 			if r.Chance(1, 8) {
 				return &Op{K: "returning", Nil: true}
 			}
 			n := r.Range(1, 3)
 			if g.edge && r.Chance(1, 6) {
 				n = 0
-			}
-			if st.retPresent && st.retNonNil && n > 0 && g.t.appends[st.retVer] >= 1 {
-				continue
 			}
 			return &Op{K: "returning", Xs: g.ids(n), Cap: g.spare(n)}
 		case 24:
@@ -927,6 +931,81 @@ func genHistory(r *lib.Rng, nsteps int, edge bool) Input {
 		g.t.step(s)
 		in.Steps = append(in.Steps, s)
 	}
+	return in
+}
+
+// genPattern: the interference pattern instantiated for a random appendable clause.
+func genPattern(r *lib.Rng) Input {
+	g := &gen{r: r, t: newTracker(), next: 9, edge: r.Chance(1, 3)}
+	kind := lib.Pick(r, []string{"where", "or", "order", "orderby", "group", "having", "joins", "scopes", "select_slice", "from", "not", "returning", "returning"})
+	mk1 := func() *Op {
+		switch kind {
+		case "where":
+			if r.Bool() {
+				xs := g.cells(r.Range(1, 2))
+				return &Op{K: "where", Xs: xs, Cap: g.spare(len(xs))}
+			}
+			return &Op{K: "where", Xs: g.ids(1), Cap: 1}
+		case "or":
+			return &Op{K: "or", Xs: []int64{-g.id()}}
+		case "not":
+			return &Op{K: "not", Xs: g.ids(1)}
+		case "order":
+			return &Op{K: "order", Xs: g.ids(1)}
+		case "orderby":
+			n := r.Range(1, 2)
+			return &Op{K: "orderby", Xs: g.ids(n), Cap: g.spare(n)}
+		case "group":
+			return &Op{K: "group", Xs: g.ids(1)}
+		case "having":
+			if r.Bool() {
+				xs := g.cells(r.Range(1, 2))
+				return &Op{K: "having", Xs: xs, Cap: g.spare(len(xs))}
+			}
+			return &Op{K: "having", Xs: g.ids(1), Cap: 1}
+		case "joins":
+			return &Op{K: "joins", Xs: g.ids(1)}
+		case "scopes":
+			return &Op{K: "scopes", Xs: g.ids(r.Range(1, 2))}
+		case "select_slice":
+			n := r.Range(1, 2)
+			return &Op{K: "select_slice", Xs: g.ids(n), Cap: g.spare(n), More: g.ids(r.Intn(3))}
+		case "returning":
+			n := r.Range(1, 2)
+			return &Op{K: "returning", Xs: g.ids(n), Cap: g.spare(n)}
+		}
+		n := r.Range(1, 2)
+		return &Op{K: "from", Xs: g.ids(n), Cap: g.spare(n)}
+	}
+	var in Input
+	push := func(s Step) int { in.Steps = append(in.Steps, s); return len(in.Steps) }
+	cur := push(Step{K: "derive", P: 0, Op: &Op{K: "model"}})
+	if kind == "having" && r.Bool() {
+		cur = push(Step{K: "derive", P: cur, Op: &Op{K: "group", Xs: g.ids(1)}})
+	}
+	for k := r.Range(1, 4); k > 0; k-- {
+		cur = push(Step{K: "derive", P: cur, Op: mk1()})
+	}
+	h := push(Step{K: "sess", P: cur, Sess: lib.Pick(r, []string{"plain", "plain", "ctx", "debug", "begin"})})
+	second := kind
+	if kind == "from" || kind == "select_slice" {
+		second = "joins" // the statement-level append that meets the clause at build time
+	}
+	kind = second
+	c1 := push(Step{K: "derive", P: h, Op: mk1()})
+	c2 := push(Step{K: "derive", P: h, Op: mk1()})
+	if r.Bool() {
+		c1 = push(Step{K: "derive", P: c1, Op: &Op{K: "where", Xs: g.ids(1), Cap: 1}})
+	}
+	f := lib.Pick(r, []string{"find", "find", "first", "delete"})
+	if kind == "returning" {
+		f = "delete"
+	}
+	push(Step{K: "finish", P: c1, Fin: &Fin{K: f}})
+	push(Step{K: "finish", P: c2, Fin: &Fin{K: f}})
+	push(Step{K: "finish", P: h, Fin: &Fin{K: "find"}})
+	c3 := push(Step{K: "derive", P: h, Op: mk1()})
+	push(Step{K: "finish", P: c3, Fin: &Fin{K: f}})
 	return in
 }
 
@@ -1048,6 +1127,18 @@ func main() {
 		}
 		add(kind, genHistory(r.Fork(), n, edge))
 	}
-	out.Extra["rule"] = "case = a history of 20..60 steps over a tree of handles (Open, Session{}, Session{NewDB}, WithContext, Debug, Begin) on DummyDialector in DryRun: chain methods Where(string|map)/Or/Not/Having/Group/Order/Clauses(OrderBy,Returning,Locking,OnConflict,From)/Limit/Offset/Select(string|[]string)/Distinct/Omit/Joins/Scopes/Unscoped/Table/Model, finishers Find/First/Take/Update/Delete from any live handle at any time; only handles from Open/Session/WithContext/Debug/Begin are reused, a chain result is continued linearly; edge stream: caller slices with spare capacity, empty/nil Returning; the known Returning pattern (two appends onto one shared Returning slice) is excluded from the generated streams and replayed from corpus/; distinct = distinct step-kind sequences; non-trivial = a state-carrying reusable handle starts >= 2 chains/finishers and at least one finisher runs"
+	// witness patterns: k merges of one appendable clause -> Session-like -> two children add one more
+	// each -> both finish (the Returning instance of this pattern is the known finding, kept in corpus/)
+	npat := 96
+	if a.Tier == "thorough" {
+		npat = 400
+	}
+	if a.N > 0 {
+		npat = a.N / 6
+	}
+	for i := 0; i < npat; i++ {
+		add("pattern", genPattern(r.Fork()))
+	}
+	out.Extra["rule"] = "case = a history of 20..60 steps over a tree of handles (Open, Session{}, Session{NewDB}, WithContext, Debug, Begin) on DummyDialector in DryRun: chain methods Where(string|map)/Or/Not/Having/Group/Order/Clauses(OrderBy,Returning,Locking,OnConflict,From)/Limit/Offset/Select(string|[]string)/Distinct/Omit/Joins/Scopes/Unscoped/Table/Model, finishers Find/First/Take/Update/Delete from any live handle at any time; only handles from Open/Session/WithContext/Debug/Begin are reused, a chain result is continued linearly; edge stream: caller slices with spare capacity, empty/nil Returning; pattern stream: k merges of one appendable clause -> Session/WithContext/Debug/Begin -> two children add one more each -> both finish; corpus: the fixed Returning / caller-slice / group-condition defects; distinct = distinct step-kind sequences; non-trivial = a state-carrying reusable handle starts >= 2 chains/finishers and at least one finisher runs"
 	lib.Must(out.Flush())
 }
